@@ -132,12 +132,22 @@ impl MSym {
 
     /// Component id per chamber (0-based ids in order of least member) for the given operations.
     pub fn components(&self, idcs: &[usize]) -> Vec<usize> {
+        // single pass (no per-component allocation: this is called on sets with > 10^5 chambers)
         let mut comp = vec![usize::MAX; self.n + 1];
         let mut next = 0;
+        let mut stack: Vec<usize> = vec![];
         for d in 1..=self.n {
             if comp[d] == usize::MAX {
-                for e in self.orbit(idcs, d) {
-                    comp[e] = next;
+                comp[d] = next;
+                stack.push(d);
+                while let Some(x) = stack.pop() {
+                    for &i in idcs {
+                        let e = self.op[i][x];
+                        if e != 0 && comp[e] == usize::MAX {
+                            comp[e] = next;
+                            stack.push(e);
+                        }
+                    }
                 }
                 next += 1;
             }
@@ -250,13 +260,12 @@ impl MSym {
             if i > 0 {
                 s += ",";
             }
+            let comp = self.components(&[i, i + 1]);
             let mut seen = vec![false; self.n + 1];
             let mut first = true;
             for d in 1..=self.n {
-                if !seen[d] {
-                    for e in self.orbit(&[i, i + 1], d) {
-                        seen[e] = true;
-                    }
+                if !seen[comp[d]] {
+                    seen[comp[d]] = true;
                     if !first {
                         s += " ";
                     }
